@@ -16,6 +16,9 @@ type lineLimitReader struct {
 	LineLimit int
 
 	curLineLength int
+
+	// timeoutErr is the last timeout error returned by R, if any.
+	timeoutErr error
 }
 
 func (r *lineLimitReader) Read(b []byte) (int, error) {
@@ -25,6 +28,9 @@ func (r *lineLimitReader) Read(b []byte) (int, error) {
 
 	n, err := r.R.Read(b)
 	if err != nil {
+		if te, ok := err.(interface{ Timeout() bool }); ok && te.Timeout() {
+			r.timeoutErr = err
+		}
 		return n, err
 	}
 
